@@ -158,13 +158,26 @@ def repo_state():
         return "unknown", False
 
 
+def _trim(x, depth=0):
+    """violation details are for the reader: very long lists / texts are cut (the scenario and the tape are what replays)"""
+    if isinstance(x, dict):
+        return {k: _trim(v, depth + 1) for k, v in x.items()}
+    if isinstance(x, (list, tuple)):
+        if len(x) > 200:
+            return [_trim(v, depth + 1) for v in x[:40]] + [f"...({len(x)} items)"]
+        return [_trim(v, depth + 1) for v in x]
+    if isinstance(x, str) and len(x) > 6000:
+        return x[:3000] + f"...({len(x)} characters)"
+    return x
+
+
 def write_replay(prop, tier, seed, index, excl, values, outcome, extra=None, directory=None):
     v = outcome.viol
     doc = {
         "property": prop, "tier": tier, "seed": seed, "index": index, "excl": excl,
         "hashseed": os.environ.get("PYTHONHASHSEED", ""),
         "tape": list(values), "tape_features": list(TAPE_FEATURES),
-        "violation": {"oracle": v.oracle, "kind": v.kind, "detail": v.detail},
+        "violation": {"oracle": v.oracle, "kind": v.kind, "detail": _trim(v.detail)},
         "scenario": outcome.ctx.scenario,
         "trace": outcome.ctx.trace,
         "repo": dict(zip(("head", "dirty"), repo_state())),
